@@ -790,3 +790,23 @@ Proof.
   unfold emacs_tokens, emacs_sexp. cbn [sexp_parse].
   rewrite parse_xacts. cbn [sexp_parse]. rewrite app_nil_r, rev_involutive. reflexivity.
 Qed.
+
+(* ------------------------------------------------------------------------------------------ *)
+(* payee overrides: what each output lets a reader recover, against post_t::payee()            *)
+
+(* xml: the posting's <payee> child when present, else the transaction's *)
+Definition xml_payee (x : xact) (p : post) : str :=
+  if is_nil (payee_from_tag x p) then x_payee x else payee_from_tag x p.
+
+Lemma xml_payee_no_later_tags x p : p_meta_later p = [] -> xml_payee x p = post_payee x p.
+Proof.
+  intros H. unfold xml_payee, post_payee, payee_from_tag, payee_at_parse. rewrite H, app_nil_r.
+  destruct (is_nil (payee_tag (build_meta (p_meta_inline p)) (build_meta (x_meta x)))); reflexivity.
+Qed.
+
+Lemma xml_payee_no_parse_time_payee x p : payee_at_parse x p = [] -> xml_payee x p = post_payee x p.
+Proof. intros H. unfold xml_payee, post_payee. rewrite H. reflexivity. Qed.
+
+Lemma header_payee_without_tags x p :
+  payee_at_parse x p = [] -> payee_from_tag x p = [] -> post_payee x p = x_payee x.
+Proof. intros H1 H2. unfold post_payee. rewrite H1, H2. reflexivity. Qed.
